@@ -623,6 +623,73 @@ func c17RacingDeploys(sameInstant bool) *Scenario {
 	return sc
 }
 
+// c17RemoveRacingWith: `remove s1` races with a deploy / rollout deploy of s1 whose new target is healthy at once.
+// Whatever order the two take effect in, once both have returned every target that is still probed belongs to a
+// service the proxy lists, and every target of a listed service is probed.
+func c17RemoveRacingWith(other string) *Scenario {
+	sc := &Scenario{Name: "C17 remove racing with " + other, Horizon: 90 * time.Second, Bounds: &Bounds{D: 2, S: 0}}
+	var live string
+	var probed map[string]int
+	var cmds []*CmdObs
+	sc.Run = func(w *World) {
+		live, probed, cmds = "", map[string]int{}, nil
+		w.AddTarget("oa:80")
+		w.AddTarget("na:80")
+		w.AddTarget("xa:80")
+		w.Deploy(deployArgs("s1", []string{"oa:80"}, []string{"a.example.com"}, nil))
+		w.Deploy(deployArgs("s2", []string{"xa:80"}, []string{"b.example.com"}, nil))
+		time.Sleep(vI/2 + 50*time.Millisecond)
+		var wg vsync.WaitGroup
+		wg.Add(2)
+		w.S.SetWindow(true)
+		var c1, c2 *CmdObs
+		vsched.GoTagged("cmd", func() { defer wg.Done(); c1 = w.Remove("s1") })
+		vsched.GoTagged("cmd", func() {
+			defer wg.Done()
+			if other == "deploy" {
+				c2 = w.Deploy(deployArgs("s1", []string{"na:80"}, []string{"a.example.com"}, nil))
+			} else {
+				c2 = w.RolloutDeploy("s1", []string{"na:80"})
+			}
+		})
+		wg.Wait()
+		w.S.SetWindow(false)
+		cmds = []*CmdObs{c1, c2}
+		from := w.Net.Mark("settle-start", "")
+		time.Sleep(4*vI + 100*time.Millisecond)
+		for _, e := range w.Net.Events() {
+			if e.Seq > from && (e.Kind == "probe" || e.Kind == "probe-refused") {
+				probed[e.Target]++
+			}
+		}
+		live = routerSummary(w.Router)
+	}
+	sc.Check = func(w *World) []Violation {
+		var vs []Violation
+		for _, c := range cmds {
+			if c == nil || !c.Done {
+				return vs
+			}
+			if c.End > c.Start+vT+vD {
+				vs = append(vs, Violation{"C17", c.Name + " exceeded-timeout-bound", fmt.Sprintf("%s took %v", c.Name, c.End-c.Start)})
+			}
+		}
+		for _, t := range []string{"oa:80", "na:80", "xa:80"} {
+			inService := strings.Contains(live, t)
+			if probed[t] > 0 && !inService {
+				vs = append(vs, Violation{"C17", "probes-after-return remove racing-with-" + other, fmt.Sprintf("%s was probed %d times in the settle window after `remove s1` (%v) and the %s (%v) returned, but no listed service uses it: %s", t, probed[t], cmds[0].Err, other, cmds[1].Err, live)})
+			}
+			// (only the unrelated service: what becomes of s1 when it is removed and deployed at the same time is not
+			// C17's subject - see DESIGN.md 0.3, "removed service resurrected")
+			if probed[t] < 3 && inService && t == "xa:80" {
+				vs = append(vs, Violation{"C17", "probing-stopped-for-live-target", fmt.Sprintf("%s is in service (%s) but got %d probes in the settle window", t, live, probed[t])})
+			}
+		}
+		return vs
+	}
+	return sc
+}
+
 func checkC17(t *testing.T, job *Job, res *Result) {
 	tier := job.Tier
 	if job.Replay != nil {
@@ -633,6 +700,7 @@ func checkC17(t *testing.T, job *Job, res *Result) {
 		scs = append(scs, c17Scenario(c))
 	}
 	scs = append(scs, c17RacingDeploys(false), c17RacingDeploys(true))
+	scs = append(scs, c17RemoveRacingWith("deploy"), c17RemoveRacingWith("rollout-deploy"))
 	b := Bounds{D: 1, S: 0}
 	if tier == "thorough" {
 		b = Bounds{D: 2, S: 0}
